@@ -555,17 +555,145 @@ Proof.
   unfold Z.sub. rewrite !inject_Z_plus, inject_Z_opp, W0. unfold qz. ring.
 Qed.
 
+
+(* ---------- canonical forms: re-zoning there and back is the identity ---------- *)
+Lemma qred_idem y : Qred (Qred y) = Qred y.
+Proof. apply Qred_complete. apply Qred_correct. Qed.
+Lemma qdivmod_red x k q r : qdivmod x k = (q, r) -> Qred r = r.
+Proof.
+  intros E. assert (Er : r = snd (qdivmod x k)) by (rewrite E; reflexivity). subst r.
+  change (snd (qdivmod x k)) with (Qred (x - qz (Qfloor (x / qz k)) * qz k)). apply qred_idem.
+Qed.
+
+Lemma tick_time_reduced t : tod_reduced (fst (tick_time t)).
+Proof.
+  destruct t as [h m s | h m | h]; unfold tick_time; cbv zeta.
+  - set (hr := qsub h (qz (qtrunc h))).
+    set (h1 := qsub h hr). set (m1 := qadd m (qmul hr (qz 60))).
+    set (mr := qsub m1 (qz (qtrunc m1))). set (m2 := qsub m1 mr).
+    set (s1 := qadd s (qmul mr (qz 60))).
+    destruct (qdivmod s1 60) as [nm s2] eqn:E1.
+    set (m3 := qadd m2 (qz nm)).
+    destruct (qdivmod m3 60) as [nh m4] eqn:E2.
+    set (h2 := qadd h1 (qz nh)).
+    destruct (qdivmod h2 24) as [nd' h3] eqn:E3.
+    cbn [fst]. unfold tod_reduced. cbn [tod_red].
+    rewrite (qdivmod_red _ _ _ _ E1), (qdivmod_red _ _ _ _ E2), (qdivmod_red _ _ _ _ E3). reflexivity.
+  - set (hr := qsub h (qz (qtrunc h))).
+    set (h1 := qsub h hr). set (m1 := qadd m (qmul hr (qz 60))).
+    destruct (qdivmod m1 60) as [nh m4] eqn:E2.
+    set (h2 := qadd h1 (qz nh)).
+    destruct (qdivmod h2 24) as [nd' h3] eqn:E3.
+    cbn [fst]. unfold tod_reduced. cbn [tod_red].
+    rewrite (qdivmod_red _ _ _ _ E2), (qdivmod_red _ _ _ _ E3). reflexivity.
+  - destruct (qdivmod h 24) as [nd' h3] eqn:E3. cbn [fst]. unfold tod_reduced. cbn [tod_red].
+    rewrite (qdivmod_red _ _ _ _ E3). reflexivity.
+Qed.
+Lemma tick_over_reduced md x : tod_reduced (ttod (tick_over md x)).
+Proof.
+  unfold tick_over. pose proof (tick_time_reduced (ttod x)) as R.
+  destruct (tick_time (ttod x)) as [t' nd]. exact R.
+Qed.
+
+Lemma zone_diff_zero z zp : dur_bool (zone_diff z zp) = false -> z = zp.
+Proof.
+  unfold zone_diff, dur_bool. change (0 =? 0) with true. change (qeqb 0 0) with true. cbn [andb].
+  rewrite andb_true_r. intros B. apply negb_false_iff in B. apply andb_prop in B. destruct B as [Bh Bm].
+  unfold qz in Bh, Bm. change 0%Q with (inject_Z 0) in Bh, Bm. rewrite qeqb_Z in Bh, Bm.
+  destruct z as [a b], zp as [c d]. cbn [zh zm] in *. f_equal; lia.
+Qed.
+
+Lemma to_time_zone_reduced md p z r : to_time_zone md p z = Some r ->
+  dur_bool (zone_diff z (tzone p)) = true -> tod_reduced (ttod r).
+Proof.
+  unfold to_time_zone, zone_diff. rewrite tp_add_add4. intros E B. injection E as <-. cbn [ttod].
+  unfold dur_bool in B. change (0 =? 0) with true in B. change (qeqb 0 0) with true in B. cbn [andb] in B.
+  rewrite andb_true_r in B. apply negb_true_iff in B.
+  unfold add4. change (qeqb 0 0) with true. change (0 =? 0) with true. cbv iota.
+  destruct (qeqb (qz (zh z - zh (tzone p))) 0) eqn:Eh.
+  - destruct (qeqb (qz (zm z - zm (tzone p))) 0) eqn:Em; [discriminate B|]. apply tick_over_reduced.
+  - apply tick_over_reduced.
+Qed.
+
+Lemma date_inj md d1 d2 : valid_date md d1 = true -> valid_date md d2 = true ->
+  rep_kind d1 = rep_kind d2 -> date_dn md d1 = date_dn md d2 -> d1 = d2.
+Proof.
+  intros V1 V2 K E. destruct d1, d2; try discriminate K; cbn [valid_date date_dn] in *.
+  - pose proof (dn_cal_inj md _ _ _ _ _ _ V1 V2 E) as I0. injection I0 as -> -> ->. reflexivity.
+  - pose proof (dn_ord_inj md _ _ _ _ V1 V2 E) as I0. injection I0 as -> ->. reflexivity.
+  - pose proof (dn_week_inj md _ _ _ _ _ _ V1 V2 E) as I0. injection I0 as -> -> ->. reflexivity.
+Qed.
+
+Lemma tod_inj t1 t2 : normal_tod t1 = true -> normal_tod t2 = true -> tod_kind t1 = tod_kind t2 ->
+  (tod_secs t1 == tod_secs t2)%Q -> tod_eqv t1 t2.
+Proof.
+  intros N1 N2 K E. destruct t1 as [h m s | h m | h], t2 as [h' m' s' | h' m' | h']; try discriminate K;
+    cbn [tod_eqv].
+  - pose proof (hms_spec _ N1) as S1. pose proof (hms_spec _ N2) as S2.
+    cbn [get_hour_minute_second] in S1, S2. apply (hms_unique _ _ _ _ _ _ _ _ S1 S2 E).
+  - destruct (normal_hm_inv _ _ N1) as ([a Ha] & A1 & A2 & A3 & A4).
+    destruct (normal_hm_inv _ _ N2) as ([b Hb] & B1 & B2 & B3 & B4).
+    cbn [tod_secs] in E. rewrite Ha, Hb in *. qlit.
+    assert (Kk : (inject_Z (60 * (b - a)) == m - m')%Q).
+    { unfold Z.sub. rewrite inject_Z_mult, inject_Z_plus, inject_Z_opp. change (inject_Z 60) with 60%Q. lra. }
+    assert (R : -60 < 60 * (b - a) < 60).
+    { split; apply inj_lt; rewrite Kk; [change (inject_Z (-60)) with (-60)%Q | change (inject_Z 60) with 60%Q]; lra. }
+    assert (a = b) by lia. subst b. split; [reflexivity|]. lra.
+  - cbn [tod_secs] in E. qlit. lra.
+Qed.
+
+Lemma tod_eqv_reduced t1 t2 : tod_eqv t1 t2 -> tod_reduced t1 -> tod_reduced t2 -> t1 = t2.
+Proof.
+  unfold tod_reduced. destruct t1, t2; cbn [tod_eqv tod_red]; try contradiction; intros E R1 R2.
+  - destruct E as (A & B & C). rewrite <- R1, <- R2. f_equal; apply Qred_complete; assumption.
+  - destruct E as (A & B). rewrite <- R1, <- R2. f_equal; apply Qred_complete; assumption.
+  - rewrite <- R1, <- R2. f_equal. apply Qred_complete. assumption.
+Qed.
+
+Lemma canon_unique md a b : normal_tp md a = true -> normal_tp md b = true ->
+  tod_reduced (ttod a) -> tod_reduced (ttod b) -> tzone a = tzone b ->
+  (instant md a == instant md b)%Q -> rep_kind (tdate a) = rep_kind (tdate b) ->
+  tod_kind (ttod a) = tod_kind (ttod b) -> a = b.
+Proof.
+  intros Na Nb Ra Rb Z E K KT.
+  destruct (normal_tp_parts md a Na) as (Va & Ta & _). destruct (normal_tp_parts md b Nb) as (Vb & Tb & _).
+  pose proof (same_day md a b Ta Tb Z E) as D.
+  pose proof (date_inj md _ _ Va Vb K D) as Ed.
+  assert (Es : (tod_secs (ttod a) == tod_secs (ttod b))%Q).
+  { unfold instant in E. rewrite D, Z in E. lra. }
+  pose proof (tod_eqv_reduced _ _ (tod_inj _ _ Ta Tb KT Es) Ra Rb) as Et.
+  destruct a as [da ta za], b as [db tb zb]. cbn [tdate ttod tzone] in *. subst. reflexivity.
+Qed.
+
+(* a normalised point in reduced form survives re-zoning there and back *)
+Lemma rezone_round_trip md q z a : normal_tp md q = true -> tod_reduced (ttod q) -> valid_zone z = true ->
+  to_time_zone md q z = Some a -> to_time_zone md a (tzone q) = Some q.
+Proof.
+  intros Nq Rq VZ E. pose proof (normal_valid md q Nq) as Vq.
+  destruct (valid_tp_parts md q Vq) as (_ & _ & VZq).
+  destruct (dur_bool (zone_diff z (tzone q))) eqn:B.
+  - pose proof (to_time_zone_normal md q z a VZ Nq E) as Na.
+    destruct (to_time_zone_spec md q z Vq VZ) as (a' & E' & I1 & Z1 & K1 & KT1 & V1).
+    rewrite E in E'. injection E' as <-.
+    destruct (to_time_zone_spec md a (tzone q) V1 VZq) as (c & E2 & I2 & Z2 & K2 & KT2 & V2).
+    pose proof (to_time_zone_normal md a (tzone q) c VZq Na E2) as Nc.
+    assert (B2 : dur_bool (zone_diff (tzone q) (tzone a)) = true).
+    { destruct (dur_bool (zone_diff (tzone q) (tzone a))) eqn:B2; [reflexivity|].
+      apply zone_diff_zero in B2. rewrite Z1 in B2. rewrite <- B2 in B.
+      unfold zone_diff, dur_bool in B. rewrite !Z.sub_diag in B. discriminate B. }
+    pose proof (to_time_zone_reduced md a (tzone q) c E2 B2) as Rc.
+    rewrite E2. f_equal. apply (canon_unique md c q Nc Nq Rc Rq Z2); [rewrite I2; exact I1 | congruence | congruence].
+  - apply zone_diff_zero in B. subst z.
+    assert (a = q).
+    { rewrite to_time_zone_same in E. injection E as <-. reflexivity. }
+    subst a. apply to_time_zone_same.
+Qed.
+
 (* the result r of t + p, fields read in zone z *)
 Definition res_ok (md : mode) (p : tp) (ds : dayspec) (tods : todspec) (hz : Z) (z : zone) (r : tp) : Prop :=
   valid_tp md r = true /\ tzone r = tzone p /\
   (let '(n0, s0) := local_ds md p z in let '(n, s) := local_ds md r z in
      next_match md ds tods n0 (Qfloor s0) hz = Some (n, Qfloor s) /\ (qis_int s0 = true -> qis_int s = true)).
-(* adding t to r again returns the same instant in the same offset and representation *)
-Definition again (md : mode) (t : trunc) (r : tp) : Prop :=
-  exists r2, tp_add_trunc md t r = TOk r2 /\ (instant md r2 == instant md r)%Q /\ tzone r2 = tzone r /\
-             rep_kind (tdate r2) = rep_kind (tdate r) /\ tod_kind (ttod r2) = tod_kind (ttod r) /\
-             valid_tp md r2 = true.
-
 Lemma wrap_none md t p ds tods hz r1 : t_zone t = None -> core_res md t ds tods hz p r1 ->
   tp_add_trunc md t p = TOk r1 /\ res_ok md p ds tods hz (tzone p) r1 /\ tp_add_trunc md t r1 = TOk r1.
 Proof.
@@ -582,7 +710,7 @@ Qed.
 Lemma wrap_zone md t p z ds tods hz : t_zone t = Some z -> valid_zone z = true -> valid_tp md p = true ->
   (forall p1, valid_tp md p1 = true -> tzone p1 = z -> (instant md p1 == instant md p)%Q ->
               tod_kind (ttod p1) = tod_kind (ttod p) -> exists r1, core_res md t ds tods hz p1 r1) ->
-  exists r, tp_add_trunc md t p = TOk r /\ res_ok md p ds tods hz z r /\ again md t r.
+  exists r, tp_add_trunc md t p = TOk r /\ res_ok md p ds tods hz z r /\ tp_add_trunc md t r = TOk r.
 Proof.
   intros Hz VZ V Core. destruct (valid_tp_parts md p V) as (_ & _ & VZp).
   destruct (to_time_zone_spec md p z V VZ) as (p1 & E1 & I1 & Z1 & K1 & KT1 & V1).
@@ -597,10 +725,13 @@ Proof.
     pose proof (to_time_zone_normal md q z p1' VZ Nq E3) as N3.
     assert (A' : add_truncated md p1' t = TOk p1').
     { apply S; [exact N3 | congruence | rewrite I3; exact I2 | congruence | congruence]. }
-    assert (VZq : valid_zone (tzone q) = true) by (rewrite Z2; exact VZp).
-    destruct (to_time_zone_spec md p1' (tzone q) V3 VZq) as (r2 & E4 & I4 & Z4 & K4 & KT4 & V4).
-    exists r2. split; [unfold tp_add_trunc; rewrite Hz, E3, A'; cbn [tbind]; rewrite E4; reflexivity|].
-    split; [rewrite I4; exact I3|]. split; [exact Z4|]. split; [congruence|]. split; [congruence | exact V4].
+    unfold tp_add_trunc. rewrite Hz, E3, A'. cbn [tbind].
+    destruct (dur_bool (zone_diff (tzone p) (tzone r1))) eqn:B.
+    + pose proof (to_time_zone_reduced md r1 (tzone p) q E2 B) as Rq.
+      rewrite (rezone_round_trip md q z p1' Nq Rq VZ E3). reflexivity.
+    + apply zone_diff_zero in B. assert (Ezz : tzone q = z) by congruence.
+      rewrite <- Ezz in E3. rewrite to_time_zone_same in E3. injection E3 as <-.
+      rewrite to_time_zone_same. reflexivity.
 Qed.
 
 (* ---------- the general statements ---------- *)
@@ -609,24 +740,21 @@ Definition ref_zone (t : trunc) (p : tp) : zone := match t_zone t with Some z =>
 
 Lemma add_trunc_day_general : forall md p t, valid_tp md p = true -> no_time t -> desig md t -> zone_ok t ->
   exists r, tp_add_trunc md t p = TOk r /\ res_ok md p (tday t) (mkTod None None None) 3000 (ref_zone t p) r /\
-            again md t r /\ (t_zone t = None -> tp_add_trunc md t r = TOk r).
+            tp_add_trunc md t r = TOk r.
 Proof.
   intros md p t V NT D ZO. pose proof (desig_stage md t D) as St. unfold zone_ok, ref_zone in *.
   destruct (t_zone t) as [z|] eqn:Hz.
-  - destruct (wrap_zone md t p z (tday t) (mkTod None None None) 3000 Hz ZO V) as (r & A & B & C).
-    { intros p1 V1 _ _ _. apply (core_notime md t (tday t) 2967 p1 (St _) ltac:(lia) NT V1). }
-    exists r. split; [exact A|]. split; [exact B|]. split; [exact C|]. intros; discriminate.
+  - apply (wrap_zone md t p z (tday t) (mkTod None None None) 3000 Hz ZO V).
+    intros p1 V1 _ _ _. apply (core_notime md t (tday t) 2967 p1 (St _) ltac:(lia) NT V1).
   - destruct (core_notime md t (tday t) 2967 p (St _) ltac:(lia) NT V) as (r1 & C).
-    destruct (wrap_none md t p _ _ _ r1 Hz C) as (A & B & E).
-    exists r1. split; [exact A|]. split; [exact B|]. split; [|intros _; exact E].
-    exists r1. destruct B as (Vr & _). repeat split; try reflexivity; assumption.
+    exists r1. apply (wrap_none md t p _ _ _ r1 Hz C).
 Qed.
 Print Assumptions add_trunc_day_general.
 
 Lemma add_trunc_day_time_general : forall md p t, valid_tp md p = true -> whole_second p -> with_hour t ->
   desig md t \/ no_desig t -> zone_ok t ->
   exists r, tp_add_trunc md t p = TOk r /\ res_ok md p (tday t) (ttod_spec t) 3000 (ref_zone t p) r /\
-            again md t r /\ (t_zone t = None -> tp_add_trunc md t r = TOk r).
+            tp_add_trunc md t r = TOk r.
 Proof.
   intros md p t V W WH D ZO.
   assert (St : stage_ok md (tday t) 2967 (day_part md t)).
@@ -634,31 +762,25 @@ Proof.
     apply (stage_ok_weaken md _ 0); [lia | apply no_desig_stage; exact D]. }
   unfold zone_ok, ref_zone in *.
   destruct (t_zone t) as [z|] eqn:Hz.
-  - destruct (wrap_zone md t p z (tday t) (ttod_spec t) 3000 Hz ZO V) as (r & A & B & C).
-    { intros p1 V1 _ I1 K1. apply (core_hour md t (tday t) 2967 p1 St ltac:(lia) WH V1).
-      apply (whole_second_inst md p p1 V W V1 I1 K1). }
-    exists r. split; [exact A|]. split; [exact B|]. split; [exact C|]. intros; discriminate.
+  - apply (wrap_zone md t p z (tday t) (ttod_spec t) 3000 Hz ZO V).
+    intros p1 V1 _ I1 K1. apply (core_hour md t (tday t) 2967 p1 St ltac:(lia) WH V1).
+    apply (whole_second_inst md p p1 V W V1 I1 K1).
   - destruct (core_hour md t (tday t) 2967 p St ltac:(lia) WH V W) as (r1 & C).
-    destruct (wrap_none md t p _ _ _ r1 Hz C) as (A & B & E).
-    exists r1. split; [exact A|]. split; [exact B|]. split; [|intros _; exact E].
-    exists r1. destruct B as (Vr & _). repeat split; try reflexivity; assumption.
+    exists r1. apply (wrap_none md t p _ _ _ r1 Hz C).
 Qed.
 Print Assumptions add_trunc_day_time_general.
 
 Lemma add_trunc_time_general : forall md p t, valid_tp md p = true -> whole_second p -> time_only t -> zone_ok t ->
   exists r, tp_add_trunc md t p = TOk r /\
             res_ok md p (mkDay None None None None) (ttod_spec t) 2 (ref_zone t p) r /\
-            again md t r /\ (t_zone t = None -> tp_add_trunc md t r = TOk r).
+            tp_add_trunc md t r = TOk r.
 Proof.
   intros md p t V W TO ZO. unfold zone_ok, ref_zone in *.
   destruct (t_zone t) as [z|] eqn:Hz.
-  - destruct (wrap_zone md t p z (mkDay None None None None) (ttod_spec t) 2 Hz ZO V) as (r & A & B & C).
-    { intros p1 V1 _ I1 K1. apply (core_time md t p1 TO V1). apply (whole_second_inst md p p1 V W V1 I1 K1). }
-    exists r. split; [exact A|]. split; [exact B|]. split; [exact C|]. intros; discriminate.
+  - apply (wrap_zone md t p z (mkDay None None None None) (ttod_spec t) 2 Hz ZO V).
+    intros p1 V1 _ I1 K1. apply (core_time md t p1 TO V1). apply (whole_second_inst md p p1 V W V1 I1 K1).
   - destruct (core_time md t p TO V W) as (r1 & C).
-    destruct (wrap_none md t p _ _ _ r1 Hz C) as (A & B & E).
-    exists r1. split; [exact A|]. split; [exact B|]. split; [|intros _; exact E].
-    exists r1. destruct B as (Vr & _). repeat split; try reflexivity; assumption.
+    exists r1. apply (wrap_none md t p _ _ _ r1 Hz C).
 Qed.
 Print Assumptions add_trunc_time_general.
 
@@ -715,9 +837,9 @@ Lemma add_trunc_week_weekday_least : forall md p t w d,
     tp_add_trunc md t r = TOk r.
 Proof.
   intros md p t w d V NT Hz WW. destruct (week_weekday_desig md t w d WW) as [D Ed].
-  destruct (add_trunc_day_general md p t V NT D (zone_ok_none t Hz)) as (r & A & (Vr & Zr & M) & _ & Idm).
+  destruct (add_trunc_day_general md p t V NT D (zone_ok_none t Hz)) as (r & A & (Vr & Zr & M) & Idm).
   unfold ref_zone in M. rewrite Hz, Ed in M.
-  exists r. split; [exact A|]. split; [exact Vr|]. split; [exact Zr|]. split; [|exact (Idm Hz)].
+  exists r. split; [exact A|]. split; [exact Vr|]. split; [exact Zr|]. split; [|exact Idm].
   destruct (local_ds md p (tzone p)) as [n0 s0]. destruct (local_ds md r (tzone p)) as [n s]. apply M.
 Qed.
 Print Assumptions add_trunc_week_weekday_least.
@@ -732,9 +854,9 @@ Lemma add_trunc_week_weekday_time_least : forall md p t w d,
 Proof.
   intros md p t w d V W WH Hz WW. destruct (week_weekday_desig md t w d WW) as [D Ed].
   destruct (add_trunc_day_time_general md p t V W WH (or_introl D) (zone_ok_none t Hz))
-    as (r & A & (Vr & Zr & M) & _ & Idm).
+    as (r & A & (Vr & Zr & M) & Idm).
   unfold ref_zone in M. rewrite Hz, Ed in M. pose proof (whole_local_int md p (tzone p) V W) as Q0.
-  exists r. split; [exact A|]. split; [exact Vr|]. split; [exact Zr|]. split; [|exact (Idm Hz)].
+  exists r. split; [exact A|]. split; [exact Vr|]. split; [exact Zr|]. split; [|exact Idm].
   destruct (local_ds md p (tzone p)) as [n0 s0]. destruct (local_ds md r (tzone p)) as [n s].
   cbn [snd] in Q0. destruct M as [M1 M2]. split; [exact M1 | exact (M2 Q0)].
 Qed.
@@ -750,9 +872,9 @@ Lemma add_trunc_full_day_least : forall md p t,
     tp_add_trunc md t r = TOk r.
 Proof.
   intros md p t V NT Hz O. destruct (one_day_full_desig md t O) as [D Ed].
-  destruct (add_trunc_day_general md p t V NT D (zone_ok_none t Hz)) as (r & A & (Vr & Zr & M) & _ & Idm).
+  destruct (add_trunc_day_general md p t V NT D (zone_ok_none t Hz)) as (r & A & (Vr & Zr & M) & Idm).
   unfold ref_zone in M. rewrite Hz, Ed in M.
-  exists r. split; [exact A|]. split; [exact Vr|]. split; [exact Zr|]. split; [|exact (Idm Hz)].
+  exists r. split; [exact A|]. split; [exact Vr|]. split; [exact Zr|]. split; [|exact Idm].
   destruct (local_ds md p (tzone p)) as [n0 s0]. destruct (local_ds md r (tzone p)) as [n s]. apply M.
 Qed.
 Print Assumptions add_trunc_full_day_least.
@@ -767,9 +889,9 @@ Lemma add_trunc_full_day_time_least : forall md p t,
 Proof.
   intros md p t V W WH Hz O. destruct (one_day_full_desig md t O) as [D Ed].
   destruct (add_trunc_day_time_general md p t V W WH (or_introl D) (zone_ok_none t Hz))
-    as (r & A & (Vr & Zr & M) & _ & Idm).
+    as (r & A & (Vr & Zr & M) & Idm).
   unfold ref_zone in M. rewrite Hz, Ed in M. pose proof (whole_local_int md p (tzone p) V W) as Q0.
-  exists r. split; [exact A|]. split; [exact Vr|]. split; [exact Zr|]. split; [|exact (Idm Hz)].
+  exists r. split; [exact A|]. split; [exact Vr|]. split; [exact Zr|]. split; [|exact Idm].
   destruct (local_ds md p (tzone p)) as [n0 s0]. destruct (local_ds md r (tzone p)) as [n s].
   cbn [snd] in Q0. destruct M as [M1 M2]. split; [exact M1 | exact (M2 Q0)].
 Qed.
@@ -782,10 +904,10 @@ Lemma add_trunc_own_zone_time : forall md p t z,
     (let '(n0, s0) := local_ds md p z in let '(n, s) := local_ds md r z in
      next_match md (mkDay None None None None) (mkTod (qfl (t_hour t)) (qfl (t_min t)) (qfl (t_sec t)))
                 n0 (Qfloor s0) 2 = Some (n, Qfloor s) /\ qis_int s = true) /\
-    again md t r.
+    tp_add_trunc md t r = TOk r.
 Proof.
   intros md p t z V W TO Hz VZ.
-  destruct (add_trunc_time_general md p t V W TO (zone_ok_some t z Hz VZ)) as (r & A & (Vr & Zr & M) & Ag & _).
+  destruct (add_trunc_time_general md p t V W TO (zone_ok_some t z Hz VZ)) as (r & A & (Vr & Zr & M) & Ag).
   unfold ref_zone in M. rewrite Hz in M. pose proof (whole_local_int md p z V W) as Q0.
   exists r. split; [exact A|]. split; [exact Vr|]. split; [exact Zr|]. split; [|exact Ag].
   destruct (local_ds md p z) as [n0 s0]. destruct (local_ds md r z) as [n s].
@@ -799,11 +921,11 @@ Lemma add_trunc_own_zone_day : forall md p t z,
     (let '(n0, s0) := local_ds md p z in let '(n, s) := local_ds md r z in
      next_match md (mkDay (t_dow t) (t_dom t) (t_doy t) (t_week t)) (mkTod None None None) n0 (Qfloor s0) 3000
        = Some (n, Qfloor s)) /\
-    again md t r.
+    tp_add_trunc md t r = TOk r.
 Proof.
   intros md p t z V NT DD Hz VZ.
   destruct (add_trunc_day_general md p t V NT (day_designator_desig md t DD) (zone_ok_some t z Hz VZ))
-    as (r & A & (Vr & Zr & M) & Ag & _).
+    as (r & A & (Vr & Zr & M) & Ag).
   unfold ref_zone in M. rewrite Hz in M.
   exists r. split; [exact A|]. split; [exact Vr|]. split; [exact Zr|]. split; [|exact Ag].
   destruct (local_ds md p z) as [n0 s0]. destruct (local_ds md r z) as [n s]. apply M.
@@ -818,11 +940,11 @@ Lemma add_trunc_own_zone_day_time : forall md p t z,
      next_match md (mkDay (t_dow t) (t_dom t) (t_doy t) (t_week t))
                 (mkTod (qfl (t_hour t)) (qfl (t_min t)) (qfl (t_sec t)))
                 n0 (Qfloor s0) 3000 = Some (n, Qfloor s) /\ qis_int s = true) /\
-    again md t r.
+    tp_add_trunc md t r = TOk r.
 Proof.
   intros md p t z V W WH DD Hz VZ.
   destruct (add_trunc_day_time_general md p t V W WH (or_introl (day_designator_desig md t DD))
-              (zone_ok_some t z Hz VZ)) as (r & A & (Vr & Zr & M) & Ag & _).
+              (zone_ok_some t z Hz VZ)) as (r & A & (Vr & Zr & M) & Ag).
   unfold ref_zone in M. rewrite Hz in M. pose proof (whole_local_int md p z V W) as Q0.
   exists r. split; [exact A|]. split; [exact Vr|]. split; [exact Zr|]. split; [|exact Ag].
   destruct (local_ds md p z) as [n0 s0]. destruct (local_ds md r z) as [n s].
